@@ -20,6 +20,7 @@ RULE += ' Before every session case six hand-driven broker scripts (subscription
 RULE += " Further modes per case: (g) a session over the same period with a later burn-in runs first from its own objects; (h) with QSTRADER_CSV_DATA_DIR unset, a session started from another market's directory and then one started from this market's directory (documented current-directory fallback) against an explicit-handler reference."
 RULE += ' (e2) every other case: a StaticUniverse object first serves a session that comes to hold a non-member, then a membership-driven session - compared with that session on a fresh universe.'
 RULE += ' Round 11: directed script per case - a run listing an asset without a price at its first rebalance (ends with the documented ValueError) or after its listing (completes) is repeated after another run of the same process (same listing at weight 0.0; or, with a moving-average model and a burn-in, a run over a later period on the same data handler): same ending, same equity curve bit for bit.'
+RULE += ' Round 12: in half of the cases the unrelated earlier session of mode (d) uses another rebalance schedule over the same period (daily <-> end_of_month, weekly -> daily).'
 ASSUMPTIONS = ['order identifiers (random uuids) are excluded from the comparison, as the statement says']
 
 
